@@ -1,5 +1,5 @@
 CONSTANT MaxFaults = 2
-CONSTANT OrderSet = {1, 2}
+CONSTANT OrderSet = {1, 2, 3, 4, 5, 6}
 SPECIFICATION Spec
 INVARIANT FaultBreaksValid
 INVARIANT BenignKeepsValid
